@@ -209,10 +209,15 @@ class Session:
             "cer-otherhost": lambda: node.cer(hbh, e2e, host="intruder.example", apps=apps),
             "cer-otherrealm": lambda: node.cer(hbh, e2e, realm="realm.intruder", apps=apps),
             "cer-incomplete": lambda: node.cer(hbh, e2e, drop=257, apps=apps),
+            "cer-otherhost-2ip": lambda: node.cer(hbh, e2e, host="intruder.example", apps=apps, dup=257),
+            "cer-2ip": lambda: node.cer(hbh, e2e, apps=apps, dup=257),
+            "dwr-otherhost-2realm": lambda: node.dwr(hbh, e2e, host="intruder.example", dup=296),
             "cea": lambda: node.cea(hbh, e2e, apps=apps),
             "cea-echo": lambda: node.cea(*self.last_request_ids(257), apps=apps),
             "cea-otherhost": lambda: node.cea(*self.last_request_ids(257), host="intruder.example", apps=apps),
             "cea-incomplete": lambda: node.cea(*self.last_request_ids(257), drop=268, apps=apps),
+            "cea-otherhost-2ip": lambda: node.cea(*self.last_request_ids(257), host="intruder.example", apps=apps, dup=257),
+            "cea-echo-2ip": lambda: node.cea(*self.last_request_ids(257), apps=apps, dup=257),
             "dwr": lambda: node.dwr(hbh, e2e),
             "dwr-otherhost": lambda: node.dwr(hbh, e2e, host="intruder.example"),
             "dwa": lambda: node.dwa(hbh, e2e),
@@ -239,8 +244,8 @@ class Session:
             meta["requests"] = [(280, hbh, e2e), (282, e2e ^ 0x55, hbh ^ 0xaa)]
         elif what == "cer+dwr":
             meta["requests"] = [(257, hbh, e2e), (280, e2e ^ 0x55, hbh ^ 0xaa)]
-        elif what in ("cer", "dwr", "dpr", "dwr+app"):
-            meta["requests"] = [({"cer": 257, "dwr": 280, "dpr": 282, "dwr+app": 280}[what], hbh, e2e)]
+        elif what in ("cer", "dwr", "dpr", "dwr+app", "cer-2ip"):
+            meta["requests"] = [({"cer": 257, "dwr": 280, "dpr": 282, "dwr+app": 280, "cer-2ip": 257}[what], hbh, e2e)]
         return data, meta
 
     def last_request_ids(self, code):
@@ -293,8 +298,8 @@ def judge(role, prev, o, history_ctx):
         errs.append((sig(f"G3:delivered-while-{ps}"), f"G3: {o['delivered']} handed to the application in state {ps}"))
     # G4: Open only through R4 / R8
     if ns in OPENS and ps not in OPENS:
-        ok = (role == "client" and ps == "Wait-I-CEA" and what == "cea-echo") or \
-             (role == "server" and ps == "Closed" and what in ("cer", "cer+dwr"))
+        ok = (role == "client" and ps == "Wait-I-CEA" and what in ("cea-echo", "cea-echo-2ip")) or \
+             (role == "server" and ps == "Closed" and what in ("cer", "cer+dwr", "cer-2ip"))
         if not ok:
             errs.append((sig(f"G4:opened-without-capabilities-exchange:{ps}:{kind if what is None else what}"),
                          f"G4: state became {ns} from {ps} on {ev}"))
@@ -316,7 +321,11 @@ def judge(role, prev, o, history_ctx):
         elif ps == "Wait-I-CEA" and kind == "msg":
             if what == "cea-echo":
                 allow({"I-Open"}, "R4")
-            elif what in ("cea-otherhost", "cea-incomplete", "cea"):
+            elif what == "cea-echo-2ip":
+                # a second Host-IP-Address is legitimate (RFC 6733: 1* { Host-IP-Address }); the statement only
+                # says when the connection may NOT open, so a stricter validator is not a violation
+                allow({"I-Open", "Wait-I-CEA", "Closed"}, "R4")
+            elif what in ("cea-otherhost", "cea-otherhost-2ip", "cea-incomplete", "cea"):
                 allow({"Wait-I-CEA", "Closed"}, "R5")
             elif what == "cer":
                 # RFC 6733 election (R-Conn-CER while awaiting the CEA): the unimplemented Wait-Returns state
@@ -330,6 +339,8 @@ def judge(role, prev, o, history_ctx):
         if ps == "Closed" and kind == "msg" and o["conn"] != "none":
             if what in ("cer", "cer+dwr"):
                 allow({"R-Open"}, "R8")
+            elif what == "cer-2ip":
+                allow({"R-Open", "Closed"}, "R8")
             else:
                 allow({"Closed"}, "R9")
                 if o["delivered"]:
@@ -352,6 +363,8 @@ def judge(role, prev, o, history_ctx):
                 allow({ps}, "R10")
                 if len(emitted(280, False)) != 2:
                     errs.append((sig("R10:dwa-count-back-to-back"), f"R10: two DWRs answered by {len(emitted(280, False))} DWA(s)"))
+            elif what == "dwr-otherhost-2realm":
+                allow({ps, "Closing", "Closed"}, "R11")
             elif what in ("dwr-otherhost", "dwa", "dwa-otherhost", "cea", "cea-echo", "dpa", "cea-otherhost", "cea-incomplete"):
                 allow({ps, "Closing", "Closed"}, "R11")
             elif what in ("cer", "cer-otherhost", "cer-incomplete", "cer-otherrealm"):
@@ -462,10 +475,10 @@ def run_history(role, apps, history, watchdog=30):
     return rt, (s.obs if s else [])
 
 
-MSGS_OPEN = ["dwr", "dwr-otherhost", "dwa", "dwa-otherhost", "dpr", "dpr-otherhost", "dpa", "cer", "cer-otherhost",
+MSGS_OPEN = ["dwr", "dwr-otherhost", "dwr-otherhost-2realm", "dwa", "dwa-otherhost", "dpr", "dpr-otherhost", "dpa", "cer", "cer-otherhost",
              "cea", "app-req", "app-ans", "req-otherhost", "req-otherrealm", "dwr+dwr", "dwr+app"]
-MSGS_WAIT_CEA = ["cea-echo", "cea-otherhost", "cea-incomplete", "cer", "dwr", "dwa", "dpr", "dpa", "app-req", "app-ans"]
-MSGS_SERVER_CLOSED = ["cer", "cer-otherhost", "cer-otherrealm", "cer-incomplete", "dwr", "app-req", "cea", "dpr"]
+MSGS_WAIT_CEA = ["cea-echo", "cea-echo-2ip", "cea-otherhost", "cea-otherhost-2ip", "cea-incomplete", "cer", "dwr", "dwa", "dpr", "dpa", "app-req", "app-ans"]
+MSGS_SERVER_CLOSED = ["cer", "cer-2ip", "cer-otherhost", "cer-otherhost-2ip", "cer-otherrealm", "cer-incomplete", "dwr", "app-req", "cea", "dpr"]
 
 
 class FsmModel:
